@@ -70,6 +70,11 @@ type Exec struct {
 	fnKey     string
 	curClause *Clause
 	axiomTerms []string
+	lemmaTerms []string
+	recSpecs map[string]bool
+	refArrays map[string]bool
+	retCovers int
+	retCoverCands []*Obligation
 	axiomNames []string
 }
 
@@ -77,7 +82,7 @@ func (x *Exec) note(s string) { x.notes[s] = true }
 
 func newExec(eng *Engine, fn *ssa.Function, fc *FuncContract) *Exec {
 	x := &Exec{eng: eng, fn: fn, fc: fc, globalSet: map[string]bool{}, arrSort: map[string]string{}, notes: map[string]bool{},
-		cellOf: map[*ssa.Alloc]*Cell{}, specUsed: map[string]bool{}, pathCap: 6000, coverDone: map[string]bool{}, specs: map[string]*specInst{}}
+		cellOf: map[*ssa.Alloc]*Cell{}, specUsed: map[string]bool{}, pathCap: 6000, coverDone: map[string]bool{}, specs: map[string]*specInst{}, refArrays: map[string]bool{}, recSpecs: map[string]bool{}}
 	return x
 }
 
@@ -296,6 +301,7 @@ func (x *Exec) atLoopHead(st *State, b, prev *ssa.BasicBlock, ord int, k Cont) {
 			continue
 		}
 		st.cells[c] = x.freshValue(st, c.T, "loop_"+c.Name)
+		x.markValueAllocated(st, st.cells[c]) // whatever a local refers to at the loop head exists already
 		st.wcells[c] = true
 	}
 	if wkeys["*"] {
@@ -322,7 +328,9 @@ func (x *Exec) atLoopHead(st *State, b, prev *ssa.BasicBlock, ord int, k Cont) {
 	}
 	st.cut[b] = true
 	for _, inv := range ls.Invariants {
-		g := x.evalClause(st, inv, x.invEnv(st, b))
+		ienv := x.invEnv(st, b)
+		ienv.dropGuards = true
+		g := x.evalClause(st, inv, ienv)
 		st.assume(g)
 	}
 	x.runFrom(st, b, 0, prev, k)
@@ -820,6 +828,15 @@ func (x *Exec) chanRecv(st *State, in *ssa.UnOp, ch *Value) *Value {
 	return val
 }
 
+// pow2Term: 2^e for a symbolic exponent, as the uninterpreted pow2i with its recurrence instantiated once.
+func (x *Exec) pow2Term(st *State, e string) string {
+	t := fmt.Sprintf("(pow2i %s)", e)
+	st.assume(fmt.Sprintf("(> %s 0)", t))
+	st.assume(fmt.Sprintf("(=> (>= %s 1) (= %s (* 2 (pow2i (- %s 1)))))", e, t, e))
+	st.assume(fmt.Sprintf("(=> (>= %s 2) (= (pow2i (- %s 1)) (* 2 (pow2i (- %s 2)))))", e, e, e))
+	return t
+}
+
 func isUnsigned(t types.Type) bool {
 	if b, ok := t.Underlying().(*types.Basic); ok {
 		return b.Info()&types.IsUnsigned != 0
@@ -1025,7 +1042,7 @@ func (x *Exec) binop(st *State, op token.Token, a, b *Value, rt types.Type) *Val
 		if k, ok := constInt(B); ok && k >= 0 && k < 128 {
 			return x.arith(st, rt, fmt.Sprintf("(* %s %s)", A, pow2(k)), "shl")
 		}
-		return leaf(rt, fmt.Sprintf("(bvshl_u %s %s)", A, B))
+		return x.arith(st, rt, fmt.Sprintf("(* %s %s)", A, x.pow2Term(st, B)), "shl")
 	case token.SHR:
 		if k, ok := constInt(B); ok && k >= 0 && k < 128 {
 			return leaf(rt, fmt.Sprintf("(div %s %s)", A, pow2(k)))
@@ -1227,7 +1244,7 @@ func (x *Exec) indexAddr(st *State, in *ssa.IndexAddr) *Value {
 		x.boundsCheck(st, i.Term, b.Fs[2].Term)
 		idx := i.Term
 		if b.Fs[1].Term != "0" {
-			idx = fmt.Sprintf("(+ %s %s)", b.Fs[1].Term, i.Term)
+			idx = fmt.Sprintf("(sidx %s %s)", b.Fs[1].Term, i.Term)
 		}
 		return &Value{K: KPtr, T: in.Type(), P: &Pointer{Base: b.Fs[0].Term, Idx: idx, Root: et}}
 	case KLeaf:
